@@ -286,6 +286,7 @@ class StereoMolGraph(MolGraph):
         :param atoms: Atoms to be used for the subgraph
         :return: Subgraph
         """
+        atoms = tuple(atoms)  # atoms may be a one-shot iterator
         new_graph = super().subgraph(atoms)
 
         for central_atom, atoms_atom_stereo in self._atom_stereo.items():
